@@ -26,7 +26,7 @@ func sxEditSignature(e *Exchange, f func(p structuredheader.Parameters)) {
 // symbolic header value) is signed by the real Signer (ECDSA idealised: a signature verifies only over exactly what
 // the key holder signed; SHA-2 collision-free), written and read back through the real file format, then ONE field
 // is altered by a symbolic amount - request URL, status, a response header byte, an added response header, a payload
-// byte (any position, any non-zero XOR mask), payload truncation/extension, method and an added request header
+// byte (any position, any non-zero XOR mask), payload truncation at every length / extension, method and an added request header
 // (1b1/1b2), the Signature parameters date / expires / cert-sha256 / sig / integrity / validity-url, or the
 // certificate chain replaced by a foreign certificate (with and without matching cert-sha256) - and verified at a
 // time t from {date-1, date, date+1, expires-1, expires, expires+1}:
@@ -68,8 +68,9 @@ func VH_C01_C02_TamperAfterSigning() {
 	case 6:
 		payloadEdit = true
 		if vh.Choose(2) == 0 {
+			// truncation at EVERY length (incl. exactly after the record-size field and after each record+proof)
 			vh.Assume(len(e.Payload) > 0)
-			e.Payload = e.Payload[:len(e.Payload)-1]
+			e.Payload = e.Payload[:vh.Choose(len(e.Payload))]
 		} else {
 			e.Payload = append(e.Payload, vh.Byte("extra"))
 		}
